@@ -15,9 +15,9 @@ import (
 )
 
 type Lin struct {
-	C     int64
-	T     map[string]int64 // term key -> coefficient
-	NonNeg map[string]bool // term is known to be >= 0 (lengths, unsigned values)
+	C      int64
+	T      map[string]int64 // term key -> coefficient
+	NonNeg map[string]bool  // term is known to be >= 0 (lengths, unsigned values)
 }
 
 func linConst(c int64) *Lin { return &Lin{C: c, T: map[string]int64{}, NonNeg: map[string]bool{}} }
@@ -53,10 +53,10 @@ func (a *Lin) addScaled(b *Lin, s int64) *Lin {
 	}
 	return r
 }
-func (a *Lin) Add(b *Lin) *Lin   { return a.addScaled(b, 1) }
-func (a *Lin) Sub(b *Lin) *Lin   { return a.addScaled(b, -1) }
+func (a *Lin) Add(b *Lin) *Lin    { return a.addScaled(b, 1) }
+func (a *Lin) Sub(b *Lin) *Lin    { return a.addScaled(b, -1) }
 func (a *Lin) Scale(s int64) *Lin { return linConst(0).addScaled(a, s) }
-func (a *Lin) IsConst() bool     { return len(a.T) == 0 }
+func (a *Lin) IsConst() bool      { return len(a.T) == 0 }
 func (a *Lin) Equal(b *Lin) bool {
 	d := a.Sub(b)
 	return d.C == 0 && len(d.T) == 0
@@ -101,11 +101,11 @@ func (a *Lin) triviallyNonNeg() bool {
 // ---------------------------------------------------------------------------
 
 type LinEnv struct {
-	p        *Prog
-	fn       *ssa.Function
-	lenSum   func(callee *ssa.Function, call *ssa.Call, env *LinEnv) ([]*Lin, bool) // length summaries of repo functions
-	names    map[ssa.Value]string
-	depth    int
+	p      *Prog
+	fn     *ssa.Function
+	lenSum func(callee *ssa.Function, call *ssa.Call, env *LinEnv) ([]*Lin, bool) // length summaries of repo functions
+	names  map[ssa.Value]string
+	depth  int
 }
 
 func NewLinEnv(p *Prog, fn *ssa.Function) *LinEnv {
@@ -350,6 +350,9 @@ func (e *LinEnv) Len(v ssa.Value) ([]*Lin, bool) {
 			}
 			return nil, false
 		}
+		if cal := x.Call.StaticCallee(); cal != nil && cal.String() == "(*math/big.Int).FillBytes" && len(x.Call.Args) == 2 {
+			return e.Len(x.Call.Args[1])
+		}
 		if cal := x.Call.StaticCallee(); cal != nil && e.lenSum != nil {
 			if ls, ok := e.lenSum(cal, x, e); ok {
 				return ls, true
@@ -440,12 +443,12 @@ func retLenSummary(p *Prog, cal *ssa.Function, idx int, call *ssa.Call, caller *
 // dominating facts
 
 type Fact struct {
-	E    *Lin   // E >= 0  (Eq: E == 0)
-	Eq   bool
-	Ne   bool   // E != 0 (weak fact)
-	Cond ssa.Value
+	E     *Lin // E >= 0  (Eq: E == 0)
+	Eq    bool
+	Ne    bool // E != 0 (weak fact)
+	Cond  ssa.Value
 	Truth bool
-	Raw  string
+	Raw   string
 }
 
 // condFacts converts "cond is truth" into linear facts.
@@ -525,7 +528,7 @@ func edgeConds(b *ssa.BasicBlock) []struct {
 			if s == other {
 				continue
 			}
-			if s == d && len(s.Preds) == 1 {
+			if s == d && onlyForwardPred(s, id) {
 				out = append(out, struct {
 					If    *ssa.If
 					Truth bool
